@@ -3,6 +3,7 @@ package props
 import (
 	"bytes"
 	"context"
+	"encoding/binary"
 	"errors"
 	"flag"
 	"fmt"
@@ -97,6 +98,38 @@ func (d *scriptDev) Ioctl(command uintptr, arg any) (uintptr, error) {
 	return 0, errors.New("unexpected request")
 }
 
+// funcDev is a Device whose dynamic type is a func type; valDev one that is a struct used by value with slice and map
+// fields: both are legal implementations of the interface (and neither can be a map key).
+type funcDev func(op string, command uintptr, arg any) (uintptr, error)
+
+func (f funcDev) Open(string) error { return nil }
+func (f funcDev) Close() error      { return nil }
+func (f funcDev) Ioctl(command uintptr, arg any) (uintptr, error) {
+	return f("ioctl", command, arg)
+}
+
+type valDev struct {
+	d    *scriptDev
+	tags []string
+	meta map[string]int
+}
+
+func (v valDev) Open(string) error { return nil }
+func (v valDev) Close() error      { return nil }
+func (v valDev) Ioctl(command uintptr, arg any) (uintptr, error) {
+	return v.d.Ioctl(command, arg)
+}
+
+func c15Device(kind int, d *scriptDev) client.Device {
+	switch kind {
+	case 1:
+		return funcDev(func(_ string, command uintptr, arg any) (uintptr, error) { return d.Ioctl(command, arg) })
+	case 2:
+		return valDev{d: d, tags: []string{"by", "value"}, meta: map[string]int{"k": 1}}
+	}
+	return d
+}
+
 // c15Errors are the error values a failing request returns: whatever its kind, a failed request is a failed request.
 var c15Errors = []error{errors.New("scripted failure"), syscall.EINTR, fmt.Errorf("ioctl: %w", syscall.EINTR), syscall.EAGAIN, syscall.EBUSY, syscall.ENOTTY, io.EOF, os.ErrDeadlineExceeded, context.Canceled, &os.PathError{Op: "ioctl", Path: "/dev/tdx_guest", Err: syscall.EINTR}}
 
@@ -108,8 +141,10 @@ type c15Cell struct {
 	rRes, qRes uintptr
 	status     uint64
 	outLen     uint32
-	lenWrite   int // what the device leaves in the request's Length field: 0 = what it found, 1.. = c15LenWrites
-	zeroTail   int // with an embedded valid quote of exact length: the quote is followed by extra bytes, the last zeroTail of them 0x00
+	devKind    int  // 0: pointer device; 1: a named func type with the Device methods; 2: a struct used by value that holds a slice and a map
+	qgsShaped  bool // the bytes the device writes look like a quote-generation-service reply that wraps a quote (they are still just the bytes the device wrote)
+	lenWrite   int  // what the device leaves in the request's Length field: 0 = what it found, 1.. = c15LenWrites
+	zeroTail   int  // with an embedded valid quote of exact length: the quote is followed by extra bytes, the last zeroTail of them 0x00
 }
 
 // c15LenWrites are values a device may leave in the Length field of the request (it is an input to the device: what
@@ -142,6 +177,12 @@ func (c c15Cell) String() string {
 	extra := ""
 	if c.lenWrite != 0 {
 		extra += fmt.Sprintf(" device-rewrites-Length(kind %d)", c.lenWrite)
+	}
+	if c.devKind != 0 {
+		extra += []string{"", " device-is-a-func-value", " device-is-a-struct-by-value"}[c.devKind]
+	}
+	if c.qgsShaped {
+		extra += " bytes-framed-like-a-service-reply"
 	}
 	if c.zeroTail != 0 {
 		extra += fmt.Sprintf(" quote-followed-by-extra-bytes-ending-in-%d-zero-bytes", c.zeroTail)
@@ -198,6 +239,23 @@ func c15RunCell(c c15Cell, s *gen.Stream, validQuote bool) (key, oracle, detail 
 			}
 		}
 		q := rq.Encode()
+		if c.qgsShaped {
+			// a quote wrapped the way a quote generation service frames its reply: 4-byte big-endian length, message
+			// header (version 1.0, type GET_QUOTE_RESP, size, error code 0), id size, quote size, id, quote
+			id := s.Bytes(s.Intn(9))
+			total := 28 + len(id) + len(q)
+			f := make([]byte, 0, total)
+			f = binary.BigEndian.AppendUint32(f, uint32(total-4))
+			f = binary.LittleEndian.AppendUint16(f, 1)
+			f = binary.LittleEndian.AppendUint16(f, 0)
+			f = binary.LittleEndian.AppendUint32(f, 1)
+			f = binary.LittleEndian.AppendUint32(f, uint32(total-4))
+			f = binary.LittleEndian.AppendUint32(f, 0)
+			f = binary.LittleEndian.AppendUint32(f, uint32(len(id)))
+			f = binary.LittleEndian.AppendUint32(f, uint32(len(q)))
+			f = append(append(f, id...), q...)
+			q = f
+		}
 		copy(d.data, q)
 		if c.outLen == 0xAAAA { // marker: exact length of the embedded quote
 			d.outLen = uint32(len(q))
@@ -211,7 +269,7 @@ func c15RunCell(c c15Cell, s *gen.Stream, validQuote bool) (key, oracle, detail 
 	var got []byte
 	v := gen.Call(func() error {
 		var err error
-		got, err = client.GetRawQuote(d, rd)
+		got, err = client.GetRawQuote(c15Device(c.devKind, d), rd)
 		return err
 	})
 	wantOK := !c.rErr && c.rRes == 0 && !c.qErr && c.qRes == 0 && c.status == 0 && c.outLen > 0 && c.outLen <= labi.ReqBufSize
@@ -255,7 +313,7 @@ func c15RunCell(c c15Cell, s *gen.Stream, validQuote bool) (key, oracle, detail 
 	var gq any
 	v2 := gen.Call(func() error {
 		var err error
-		gq, err = client.GetQuote(&d2, rd)
+		gq, err = client.GetQuote(c15Device(c.devKind, &d2), rd)
 		return err
 	})
 	if v2.Panicked() {
@@ -387,6 +445,7 @@ func TestC15(t *testing.T) {
 				valid := (i+rep)%2 == 0
 				c.errKind, c.errWrites = (i/2+rep)%len(c15Errors), (i/3+rep)%2 == 0
 				c.lenWrite, c.zeroTail = (i/5+rep)%7, []int{0, 1, 3, 0, 17}[(i/9+rep)%5]
+				c.devKind, c.qgsShaped = (i/11+rep)%3, (i/13+rep)%4 == 0
 				key, oracle, detail := c15RunCell(c, s, valid)
 				nontrivial := c.rErr || c.qErr || c.rRes != 0 || c.qRes != 0 || c.status != 0 || c.outLen <= 1 || c.outLen >= labi.ReqBufSize
 				if nontrivial {
@@ -398,7 +457,7 @@ func TestC15(t *testing.T) {
 				}
 				if key != "" {
 					gen.Fail(t, gen.Violation{Key: key, Oracle: oracle, Detail: c.String() + ": " + detail,
-						Replay: map[string]any{"kind": "device", "r_err": c.rErr, "q_err": c.qErr, "r_res": uint64(c.rRes), "q_res": uint64(c.qRes), "status": fmt.Sprint(c.status), "out_len": c.outLen, "valid": valid, "untouched": c.untouched, "err_kind": c.errKind, "err_writes": c.errWrites, "len_write": c.lenWrite, "zero_tail": c.zeroTail}})
+						Replay: map[string]any{"kind": "device", "r_err": c.rErr, "q_err": c.qErr, "r_res": uint64(c.rRes), "q_res": uint64(c.qRes), "status": fmt.Sprint(c.status), "out_len": c.outLen, "valid": valid, "untouched": c.untouched, "err_kind": c.errKind, "err_writes": c.errWrites, "len_write": c.lenWrite, "zero_tail": c.zeroTail, "dev_kind": c.devKind, "qgs_shaped": c.qgsShaped}})
 				}
 			}
 		}
@@ -415,6 +474,7 @@ func TestC15(t *testing.T) {
 			untouched: rapid.IntRange(0, 7).Draw(t, "untouched") == 0,
 			errKind:   rapid.IntRange(0, len(c15Errors)-1).Draw(t, "errKind"), errWrites: rapid.Bool().Draw(t, "errWrites"),
 			lenWrite: rapid.SampledFrom([]int{0, 0, 1, 2, 3, 4, 5, 6}).Draw(t, "lengthFieldRewritten"),
+			devKind:  rapid.IntRange(0, 2).Draw(t, "deviceKind"), qgsShaped: rapid.IntRange(0, 3).Draw(t, "framedLikeAServiceReply") == 0,
 		}
 		valid := rapid.Bool().Draw(t, "valid")
 		if valid && rapid.Bool().Draw(t, "exactLength") {
@@ -422,7 +482,7 @@ func TestC15(t *testing.T) {
 		}
 		if key, oracle, detail := c15RunCell(c, s, valid); key != "" {
 			gen.Fail(t, gen.Violation{Key: key, Oracle: oracle, Detail: c.String() + ": " + detail,
-				Replay: map[string]any{"kind": "device", "r_err": c.rErr, "q_err": c.qErr, "r_res": uint64(c.rRes), "q_res": uint64(c.qRes), "status": fmt.Sprint(c.status), "out_len": c.outLen, "valid": valid, "err_kind": c.errKind, "err_writes": c.errWrites, "len_write": c.lenWrite, "zero_tail": c.zeroTail}})
+				Replay: map[string]any{"kind": "device", "r_err": c.rErr, "q_err": c.qErr, "r_res": uint64(c.rRes), "q_res": uint64(c.qRes), "status": fmt.Sprint(c.status), "out_len": c.outLen, "valid": valid, "err_kind": c.errKind, "err_writes": c.errWrites, "len_write": c.lenWrite, "zero_tail": c.zeroTail, "dev_kind": c.devKind, "qgs_shaped": c.qgsShaped}})
 		}
 		gen.NonTrivial("rand", c.String())
 	})
@@ -655,6 +715,10 @@ func init() {
 		if zt, ok := c["zero_tail"].(float64); ok {
 			cell.zeroTail = int(zt)
 		}
+		if dk, ok := c["dev_kind"].(float64); ok {
+			cell.devKind = int(dk)
+		}
+		cell.qgsShaped = c["qgs_shaped"] == true
 		if key, oracle, detail := c15RunCell(cell, gen.NewStream(1, "replay"), c["valid"] == true); key != "" {
 			return key + " (" + oracle + "): " + detail
 		}
